@@ -6,6 +6,9 @@ import (
 	"math/rand"
 	"os"
 
+	"github.com/cbehopkins/gkvlite"
+
+	"verifharness/decoder"
 	"verifharness/memfile"
 )
 
@@ -81,6 +84,24 @@ func (fr *faultRun) do(t target, ft *memfile.Fault) (alive bool, replaced bool) 
 			return true, false
 		}
 		return w.Del(m, t.name, t.key, ft), false
+	case "warmdel":
+		// the path to the key is loaded first (no fault), so that every read of the
+		// Delete itself belongs to its split / join phase
+		if !has() {
+			return true, false
+		}
+		if !w.Get(m, t.name, t.key, false, nil) {
+			return false, false
+		}
+		return w.Del(m, t.name, t.key, ft), false
+	case "warmset":
+		if !has() {
+			return true, false
+		}
+		if !w.Get(m, t.name, t.key, false, nil) {
+			return false, false
+		}
+		return w.SetKV(m, t.name, t.key, t.val, t.prio, false, ft), false
 	case "flush":
 		ok := w.Flush(m, ft)
 		if ok && ft == nil {
@@ -98,7 +119,15 @@ func (fr *faultRun) do(t target, ft *memfile.Fault) (alive bool, replaced bool) 
 		}
 		return w.Evict(m, t.name), false
 	case "copyto":
-		d := w.CopyTo(m, t.fe, ft)
+		var d *StoreH
+		if ft != nil && ft.Kind == 'D' {
+			// pseudo-kind D: the K-th WriteAt on the destination file fails
+			dft := &memfile.Fault{Kind: memfile.Write, K: ft.K, Torn: ft.Torn}
+			d = w.CopyTo(m, t.fe, nil, dft)
+			ft.Hit = dft.Hit
+		} else {
+			d = w.CopyTo(m, t.fe, ft)
+		}
 		if d == nil {
 			return len(w.stores) > 0 && fr.stillAlive(), false
 		}
@@ -184,8 +213,13 @@ func cmdFault(args []string) {
 		}
 		var vars []variant
 		for t := range counts {
-			for _, kind := range []byte{memfile.Read, memfile.Write, memfile.Stat, memfile.Truncate} {
+			for _, kind := range []byte{memfile.Read, memfile.Write, memfile.Stat, memfile.Truncate, 'D'} {
 				for k := 1; k <= counts[t][kind]; k++ {
+					if kind == 'D' {
+						rng := rand.New(rand.NewSource(bseed + int64(t*977+k)))
+						vars = append(vars, variant{t, memfile.Fault{Kind: kind, K: k, Torn: []int{0, 1, 7, 30}[rng.Intn(4)]}})
+						continue
+					}
 					if kind == memfile.Write {
 						wl := 64
 						if k-1 < len(lens[t]) {
@@ -201,9 +235,20 @@ func cmdFault(args []string) {
 				}
 			}
 		}
-		// deterministic subsample when there are too many
+		// deterministic subsample when there are too many: at most 40 variants per
+		// target operation (a byte-wise root scan alone issues thousands of
+		// reads), then a global cap
 		rng := rand.New(rand.NewSource(bseed))
 		rng.Shuffle(len(vars), func(i, j int) { vars[i], vars[j] = vars[j], vars[i] })
+		perTarget := map[int]int{}
+		kept := vars[:0]
+		for _, v := range vars {
+			if perTarget[v.t] < 40 {
+				perTarget[v.t]++
+				kept = append(kept, v)
+			}
+		}
+		vars = kept
 		if len(vars) > *maxVar {
 			vars = vars[:*maxVar]
 		}
@@ -248,7 +293,7 @@ func faultVariant(out *os.File, bseed int64, steps, at int, ft *memfile.Fault, p
 	}, dry bool) (counts []map[byte]int, lens [][]int, ok bool) {
 	rand.Seed(bseed) // gkvlite draws from the global source (Set priorities, eviction walks)
 	rng := rand.New(rand.NewSource(bseed))
-	u := NewUniverse(rng, 8, false)
+	u := NewUniverse(rng, 14, false)
 	var sink *os.File = out
 	w := NewWorld(sink, rng, u, 0)
 	w.prop = prop
@@ -274,7 +319,17 @@ func faultVariant(out *os.File, bseed int64, steps, at int, ft *memfile.Fault, p
 		return nil, nil, false
 	}
 	fr := &faultRun{w: w, main: r.main}
-	if bseed%2 == 0 {
+	mode := (bseed/100 + bseed%100) % 4 // bseed = seed*100 + base index
+	if mode == 2 {
+		// every node stays in memory, every item is evicted (a full visit does
+		// that): the reads of a mutation are then item reads only, those of its
+		// join phase come right after the lookup's
+		for _, id := range w.storeIDs() {
+			if !w.Obs(w.stores[id], "api", "C07") {
+				return nil, nil, false
+			}
+		}
+	} else if mode != 1 {
 		if !fr.reopen(nil) {
 			return nil, nil, false
 		}
@@ -293,8 +348,9 @@ func faultVariant(out *os.File, bseed int64, steps, at int, ft *memfile.Fault, p
 	}
 	nm := func() string { return names[rng.Intn(len(names))] }
 	ky := func() []byte { return u.Keys[rng.Intn(len(u.Keys))] }
-	vl := func() []byte { v, _ := u.NewValue(rng, false, w.lastRoot); return v }
-	mk := func(kind string) target {
+	vl := func() []byte { v, _ := u.NewValue(rng, false, w.someRoot()); return v }
+	var mk func(kind string) target
+	mk = func(kind string) target {
 		switch kind {
 		case "get":
 			return target{kind: "get", name: nm(), key: ky(), wv: rng.Intn(2) == 0}
@@ -306,7 +362,32 @@ func faultVariant(out *os.File, bseed int64, steps, at int, ft *memfile.Fault, p
 		case "set":
 			return target{kind: "set", name: nm(), key: ky(), val: vl(), prio: []int32{rng.Int31(), rng.Int31n(4)}[rng.Intn(2)]}
 		case "del":
-			return target{kind: "del", name: nm(), key: ky()}
+			// prefer a key that exists (a failed Delete of a present key is the interesting case)
+			n := nm()
+			k := ky()
+			if rng.Intn(4) != 0 {
+				// the base ended with a Flush: the file image tells which keys exist
+				// (read through the independent decoder: no cache is perturbed)
+				if d := decoder.Decode(fr.main.File.Bytes(), -1); d.Root != nil {
+					var keys [][]byte
+					for _, nd := range decoder.InOrder(d.Root.Colls[n], nil) {
+						if nd.Item != nil {
+							keys = append(keys, nd.Item.Key)
+						}
+					}
+					if len(keys) > 0 {
+						k = keys[rng.Intn(len(keys))]
+					}
+				}
+			}
+			return target{kind: "del", name: n, key: k}
+		case "warmdel":
+			t := mk("del")
+			t.kind = "warmdel"
+			return t
+		case "warmset":
+			t := mk("del") // an existing key most of the time
+			return target{kind: "warmset", name: t.name, key: t.key, val: vl(), prio: []int32{rng.Int31(), rng.Int31n(4)}[rng.Intn(2)]}
 		case "copyto":
 			return target{kind: "copyto", fe: []int{0, 1, 2, 5}[rng.Intn(4)]}
 		case "totals", "len", "collwrite", "evict":
@@ -314,16 +395,17 @@ func faultVariant(out *os.File, bseed int64, steps, at int, ft *memfile.Fault, p
 		}
 		return target{kind: kind}
 	}
-	pool := []string{"get", "get", "min", "max", "visit", "visit", "set", "set", "set", "del", "del", "del", "totals", "len",
-		"flush", "flush", "collwrite", "collwrite", "evict", "copyto", "revert", "revert", "reopen"}
+	pool := []string{"get", "get", "min", "max", "visit", "visit", "set", "set", "set", "set", "del", "del", "del", "del", "del", "totals", "len",
+		"flush", "flush", "collwrite", "collwrite", "evict", "copyto", "revert", "reopen", "warmdel", "warmdel", "warmdel", "warmset"}
 	var tg []target
 	for len(tg) < 22 {
 		tg = append(tg, mk(pool[rng.Intn(len(pool))]))
 	}
 	// every list exercises the durability-related calls at least once
-	for _, must := range []string{"flush", "del", "revert", "set", "flush"} {
+	for _, must := range []string{"flush", "warmdel", "set", "del", "revert", "set", "flush"} {
 		tg = append(tg, mk(must))
 	}
+	crng := rand.New(rand.NewSource(bseed + 99))
 	counts = make([]map[byte]int, len(tg))
 	lens = make([][]int, len(tg))
 	for i, t := range tg {
@@ -343,6 +425,9 @@ func faultVariant(out *os.File, bseed int64, steps, at int, ft *memfile.Fault, p
 		}
 		alive, _ := fr.do(t, fault)
 		if dry {
+			if t.kind == "copyto" && w.lastCopyDst != nil {
+				cnt['D'] = w.lastCopyDst.LogLen()
+			}
 			counts[i] = cnt
 			lf := fr.main.File
 			lf.Gate = nil
@@ -365,6 +450,21 @@ func faultVariant(out *os.File, bseed int64, steps, at int, ft *memfile.Fault, p
 					return counts, lens, false
 				}
 			}
+		}
+		// cool the caches between targets (same decisions in every variant):
+		// flush, then a full visit, which evicts every persisted item, so that
+		// the next lookups and mutations have to read - and can be made to fail
+		// in their split / join phases too
+		if crng.Intn(2) == 0 && t.kind != "revert" && t.kind != "reopen" {
+			if !w.Flush(fr.main, nil) {
+				return counts, lens, false
+			}
+			for _, n := range fr.main.St.GetCollectionNames() {
+				if c := fr.main.St.GetCollection(n); c != nil {
+					c.VisitItemsAscend(w.lowTarget(n), false, func(*gkvlite.Item) bool { return true })
+				}
+			}
+			fr.main.File.Drain()
 		}
 	}
 	// unrelated allocation forces reuse of anything that was wrongly freed
